@@ -72,7 +72,7 @@ func (c *client) Write(b []byte) (int, error) {
 // values of the complete events, pings excluded.
 func (c *client) events() (data []string, pings int) {
 	c.mu.Lock()
-	s := string(c.stream)
+	s := strings.ReplaceAll(strings.ReplaceAll(string(c.stream), "\r\n", "\n"), "\r", "\n") // any SSE line ending
 	c.mu.Unlock()
 	for {
 		i := strings.Index(s, "\n\n")
